@@ -1,6 +1,7 @@
 """C04 -- Flow densities integrate to one and the sampler draws from them.   (PARTIAL, see MANIFEST)
 
-Proof side: coq/Props/C04.v (1-D change of variables, closure of the onto-R layers under Chain / Invert, Tanh not onto).
+Proof side: coq/Props/C04.v (1-D change of variables, smooth and piecewise (Chasles) form, closure of the onto-R layers incl. the
+            rational-quadratic spline under Chain / Invert, Tanh not onto).
 Tie: log_prob of the flows the expression language covers (triangular_spline_flow, hand-built Transformed over onto-R
      layers incl. splines / TriangularAffine), 1-D and 2-D, vs the extracted Model/Dist.v -- at core AND far-tail points
      (the linear tails of LeakyTanh carry the mass the integral needs).
@@ -40,19 +41,22 @@ MANIFEST = {
                  "executed correspondence of the model density with the real flows + deterministic quadrature and fixed-seed KS test on the implementation",
     "text": "PARTIAL. Proved (coq/Props/C04.v, over R): for a base with a CDF and an increasing or decreasing C1 bijection of R onto R the "
             "transformed density integrates to one (is_RInt_gen over the whole line); the class of such maps is closed under composition and "
-            "inverse (inverse function theorem proved for the class); Affine with any non-zero scale, Loc, Scale, LeakyTanh with the constructor's "
-            "fields and every Chain / Invert nesting of them belong to it and report ln|derivative| as log-det, so exp(logp) of the MODEL of "
-            "Transformed(base, b) integrates to one for every such 1-D expression; Tanh is provably not such a map. The model is tied to the code "
-            "by comparing log_prob with the extracted model on the flows the expression language covers, far tails included. NOT proved: the "
-            "d >= 2 change of variables (no multivariate integration in Coquelicot), the spline's closure lemma (kinks at the interval ends), "
-            "existence of the normal CDF (hypothesis), and every statistical statement about the sampler. Those are covered only by the search "
+            "inverse (inverse function theorem proved for the class); a piecewise (Chasles) form covers bijections glued from finitely many "
+            "C1 pieces with kinks at the break points, closed under composition and inverse as well; Affine with any non-zero scale, Loc, "
+            "Scale, LeakyTanh with the constructor's fields, the rational-quadratic spline under rqs_valid (break points = its knots, kinks "
+            "at the interval ends, rqs_deriv as piecewise derivative, the coded inverse) and every Chain / Invert nesting of them belong to "
+            "the class and report ln|derivative| as log-det, so exp(logp) of the MODEL of Transformed(base, b) integrates to one for every "
+            "such 1-D expression in both orientations; Tanh is provably not such a map. The model is tied to the code by comparing log_prob "
+            "with the extracted model on the flows the expression language covers, far tails included. NOT proved: the d >= 2 change of "
+            "variables (no multivariate integration in Coquelicot), existence of the normal CDF (hypothesis; proved for the Gumbel base), "
+            "and every statistical statement about the sampler. Those are covered only by the search "
             "oracle: deterministic composite Gauss-Legendre quadrature of exp(log_prob) (1-D all factories, 2-D tensor grid) and a fixed-seed "
             "Kolmogorov-Smirnov statistic of F(sample) with N = 20000 (false-alarm probability < 1e-9 by the KS law, plus quadrature error).",
     "note": "Trusted: Coq kernel, Reals/Coquelicot axioms as printed, extraction, OCaml float primitives, harness (quadrature rule, KS statistic). "
             "jr.normal is assumed to draw from the standard normal law. Float rounding is outside the theorems.",
 }
 LEVEL = "proof"
-EXPLANATION = ("partial: the proof covers 1-D expressions over onto-R layers; d >= 2 integration, spline closure and sampler statistics are "
+EXPLANATION = ("partial: the proof covers 1-D expressions over onto-R layers incl. splines (piecewise form); d >= 2 integration and sampler statistics are "
                "checked by deterministic quadrature / a fixed-seed KS test on the implementation only")
 
 TOL_1D, TOL_2D, KS_Q = 3e-3, 2e-2, 0.0234
@@ -525,7 +529,7 @@ def run(ctx):
         "jr.normal draws from the standard normal law (the KS test compares the sampler with the density log_prob reports, not with an external reference)",
         "quadrature calibrated on the unchanged tree (design_probes/py_quad.py): 1-D |I-1| <= 1.1e-3, 2-D <= 7e-3; thresholds 3e-3 / 2e-2",
         "KS threshold 0.0234 = 1e-9 quantile of the Kolmogorov law for N = 20000, plus the measured quadrature error",
-        "theorems are over R and 1-D; d >= 2, splines and all sampler statistics rest on the oracle only (partial)",
+        "theorems are over R and 1-D; splines are covered by the piecewise form; d >= 2 and all sampler statistics rest on the oracle only (partial)",
     ]
 
 
